@@ -189,6 +189,8 @@ func CheckC15(r *Run) int {
 			mx := f.maxLen[i]
 			if !quick {
 				mx += 2
+			} else {
+				mx++
 			}
 			lens[i] = c.Choose(fmt.Sprintf("len%d", i), 0, mx)
 		}
@@ -334,7 +336,7 @@ func CheckC15(r *Run) int {
 			bads = append(bads, o)
 		}
 	}})
-	r.Absorb("H_C15_std_strings", st, fmt.Sprintf("%d functions of std/strings.tsh; every string argument is 0..maxLen symbolic bytes over %q (maxLen per function 1..3, +2 in thorough), counts -2..4, slices of 2 elements; the compiled library runs under ShSem, the result is compared with Go's strings package for every argument tuple on the path", len(fns), defaultAlpha+" (TrimSpace: \"vtnrf\", tab, blank)"))
+	r.Absorb("H_C15_std_strings", st, fmt.Sprintf("%d functions of std/strings.tsh; every string argument is 0..maxLen symbolic bytes over %q (maxLen per function 1..3, +1 in quick, +2 in thorough), counts -2..4, slices of 2 elements; the compiled library runs under ShSem, the result is compared with Go's strings package for every argument tuple on the path", len(fns), defaultAlpha+" (TrimSpace: \"vtnrf\", tab, blank)"))
 	sort.SliceStable(bads, func(i, j int) bool {
 		a, b := bads[i], bads[j]
 		if a.Fn != b.Fn {
